@@ -5,7 +5,9 @@ import json
 class Pipe:
     """Builds the `nodes` list of a scenario and remembers who connects to whom and how."""
 
-    def __init__(self):
+    def __init__(self, tcp=False):
+        self.tcp = tcp        # tcp://host:port addressing (request channel on port+1, one node on the default port) instead of ipc://name
+        self._port = 6000
         self.nodes = []
         self.edges = []       # {'cons', 'pub', 'out' (index of publisher output), 'form', 'map', 'eph'}
         self.by_id = {}
@@ -15,8 +17,20 @@ class Pipe:
         self.by_id[node['id']] = node
         return node
 
+    def _outputs(self, nid, nout):
+        if not self.tcp:
+            return [f'ipc://{nid}' + (f'-{i}' if nout > 1 else '') for i in range(nout)]
+        outs = []
+        for _ in range(nout):
+            if self._port == 6000 and nout == 1:
+                outs.append('tcp://*')                 # default port 5550 (+1 for requests)
+            else:
+                outs.append(f'tcp://*:{self._port}')
+            self._port += 2
+        return outs
+
     def source(self, nid, beh=None, nout=1, balance=False, **kw):
-        cfg = {'outputs': [f'ipc://{nid}' + (f'-{i}' if nout > 1 else '') for i in range(nout)]}
+        cfg = {'outputs': self._outputs(nid, nout)}
         if balance:
             cfg['outputs_balance'] = True
         return self._add({'id': nid, 'role': 'source', 'config': cfg, 'beh': beh or {}, 'start_ms': 0, **kw})
@@ -27,6 +41,8 @@ class Pipe:
         for inp in inputs:
             pub = self.by_id[inp['pub']]
             addr = pub['config']['outputs'][inp.get('out', 0)]
+            if addr.startswith('tcp://*'):
+                addr = 'tcp://127.0.0.1' + addr[7:]    # what a consumer writes for a publisher bound to all interfaces
             form = inp.get('form', 'all')
             if form == 'all':
                 suffix, mp = '', None
@@ -42,7 +58,7 @@ class Pipe:
             self.edges.append({'cons': nid, 'pub': inp['pub'], 'out': inp.get('out', 0), 'form': form, 'map': mp, 'eph': eph})
         cfg = {'sources': srcs}
         if role != 'sink' or nout and kw.pop('sink_outputs', False):
-            cfg['outputs'] = [f'ipc://{nid}' + (f'-{i}' if nout > 1 else '') for i in range(nout)]
+            cfg['outputs'] = self._outputs(nid, nout)
         if balance_out:
             cfg['outputs_balance'] = True
         if balance_in:
